@@ -165,8 +165,66 @@ def run_c13(pid, tier, seed):
                         pos = next((i for i in range(min(len(a), len(b))) if a[i] != b[i]), min(len(a), len(b)))
                         violations.append({"sig": sig, "summary": f"program {name} ({mode} build): generated files differ between configuration {cname} and base: {diff[:4]}; first difference in {diff[0]} at byte {pos}: {a[max(0,pos-40):pos+40]!r} vs {b[max(0,pos-40):pos+40]!r}",
                                            "replay": {"program": name, "mode": mode, "config": cname, "files": diff[:6]}})
+    # ---- sibling dimension: a theory's output must not depend on which other theories are compiled by
+    # the same process (same directory), nor on whether those are digest-skipped
+    base_outs = {}
+    for name, res in results:
+        for mode in ("module", "component"):
+            runs = [r for r in res if r[0] == mode]
+            if runs and runs[0][2] == 0:
+                base_outs[(name, mode)] = runs[0][4]
+    groups = [("all-together", progs), ("every-second", progs[::2]), ("reversed-tail", list(reversed(progs[len(progs) // 3:])))]
+    stats["sibling_runs"] = 0
+    for gname, members in groups:
+        for mode in ("module", "component"):
+            root = os.path.join(WORK, "c13", "_siblings", gname, mode)
+            shutil.rmtree(root, ignore_errors=True)
+            sdir, odir, cdir = os.path.join(root, "src"), os.path.join(root, "out"), os.path.join(root, "comp")
+            for d in (sdir, odir, cdir):
+                os.makedirs(d)
+            for name, src in members:
+                with open(os.path.join(sdir, name + ".eql"), "w") as f:
+                    f.write(src)
+            cmd = [common.EQLOG_BIN, sdir, odir]
+            if mode == "component":
+                cmd += ["--build-type", "component", "--component-out-dir", cdir, "--rustc-path", c12.FAKERUSTC, "--runtime-rlib-path", "/dev/null"]
+            for attempt in ("fresh", "after-deleting-every-third-output"):
+                if attempt != "fresh":
+                    # remove some outputs so that the remaining theories are digest-skipped in this process
+                    for i, (name, _) in enumerate(members):
+                        if i % 3 == 0:
+                            for pth in (os.path.join(odir, name + ".eql.rs"), os.path.join(cdir, name + ".eql")):
+                                if os.path.isdir(pth):
+                                    shutil.rmtree(pth)
+                                elif os.path.exists(pth):
+                                    os.unlink(pth)
+                p = subprocess.run(cmd, env=common.env_offline({"RAYON_NUM_THREADS": "4"}), stdout=subprocess.PIPE, stderr=subprocess.PIPE, timeout=1800)
+                stats["sibling_runs"] += 1
+                if p.returncode != 0:
+                    sig = f"siblings-exit:{mode}:{gname}"
+                    if sig not in sigs:
+                        sigs.add(sig)
+                        violations.append({"sig": sig, "summary": f"compiling {len(members)} accepted programs in one directory ({mode} build, {gname}, {attempt}) exits {p.returncode}: {p.stderr.decode('utf-8','replace')[-300:]}", "replay": {"group": gname, "mode": mode}})
+                    break
+                outs = text_outputs(root)
+                for name, _ in members:
+                    mine = {k: v for k, v in outs.items() if k == f"out/{name}.eql.rs" or k.startswith(f"comp/{name}.eql/")}
+                    want = base_outs.get((name, mode))
+                    if want is None:
+                        continue
+                    stats["files_compared"] += len(mine)
+                    if mine != want:
+                        diff = sorted(k for k in set(mine) | set(want) if mine.get(k) != want.get(k))
+                        sig = f"output-depends-on-siblings:{mode}"
+                        if sig not in sigs:
+                            sigs.add(sig)
+                            a, b = mine.get(diff[0], b""), want.get(diff[0], b"")
+                            pos = next((i for i in range(min(len(a), len(b))) if a[i] != b[i]), min(len(a), len(b)))
+                            violations.append({"sig": sig, "summary": f"program {name} ({mode} build): output differs when it is compiled together with other theories ({gname}, {attempt}) from when it is compiled alone: {diff[:4]}; first difference in {diff[0]} at byte {pos}: {a[max(0,pos-40):pos+40]!r} vs {b[max(0,pos-40):pos+40]!r}",
+                                               "replay": {"program": name, "mode": mode, "group": gname, "attempt": attempt, "files": diff[:6]}})
+            shutil.rmtree(root, ignore_errors=True)
     shutil.rmtree(WORK, ignore_errors=True)
-    cov = {"evaluations": stats["runs"], "distinct_nontrivial": stats["programs"] * 2,
+    cov = {"evaluations": stats["runs"] + stats["sibling_runs"], "distinct_nontrivial": stats["programs"] * 2, "sibling_groupings": [g[0] for g in groups],
            "rule": "a case is one compilation of one accepted program in one build mode under one configuration (repetition, 1/2/16 worker threads, directory depth and name, ASLR off, padded environment with allocator perturbation); distinct_nontrivial = program x build-mode pairs whose outputs were compared across all configurations",
            "programs": stats["programs"], "configurations": [c[0] for c in configs], "files_compared": stats["files_compared"],
            "component_writer_checks": stats["writer_checks"], "exhaustive": True,
